@@ -2,18 +2,23 @@ import Verif.Props.C17
 open Verif.Props.C17
 #print axioms entities_html_ok
 #print axioms entities_html_selfcontained
+#print axioms numeric_ref_decodes
 #print axioms textrev_html_ok
+#print axioms attrrev_html_ok
+#print axioms rev_html_needed
 #print axioms textrev_html_covers_lt
 #print axioms entities_xml_ok
 #print axioms textrev_xml_ok
+#print axioms attrrev_xml_ok
+#print axioms rev_xml_needed
 #print axioms colorhex_ok
 #print axioms colorname_ok
 #print axioms bool_attrs_ok
 #print axioms url_attrs_partial
 #print axioms url_attrs_counterexample
 #print axioms raw_tags_ok
-#print axioms block_tags_partial
-#print axioms block_tags_counterexample
+#print axioms block_tags_ok
+#print axioms block_object_disjoint
 #print axioms js_mimetypes_ok
 #print axioms zero_units_ok
 #print axioms svg_color_attrs_ok
